@@ -1555,4 +1555,24 @@ pub mod verif_hooks {
     pub fn usize_from_field_value(v: &FieldValue) -> Option<usize> {
         super::usize_from_field_value(v)
     }
+
+    /// `(max, min)` statically known limits on the number of elements of the fold.
+    pub fn fold_count_limits(
+        query: super::InterpretedQuery,
+        fold: &super::IRFold,
+    ) -> (Option<usize>, Option<usize>) {
+        let mut carrier = super::QueryCarrier { query: Some(query) };
+        let max = super::get_max_fold_count_limit(&mut carrier, fold);
+        let min = super::get_min_fold_count_limit(&mut carrier, fold);
+        std::mem::forget(carrier);
+        (max, min)
+    }
+
+    pub fn collect_fold_elements<V: Clone + std::fmt::Debug + 'static>(
+        iterator: super::ContextIterator<'static, V>,
+        max_fold_count_limit: &Option<usize>,
+        min_fold_count_limit: &Option<usize>,
+    ) -> Option<Vec<super::DataContext<V>>> {
+        super::collect_fold_elements(iterator, max_fold_count_limit, min_fold_count_limit)
+    }
 }
